@@ -343,4 +343,8 @@ class C10(core.PropBase):
 PROP = C10()
 
 if __name__ == "__main__":
+    # second stream: ONE Coq function for preprocess_job_parameters on RAW documents, client and server mode
+    # (PreprocessFull.v; props/C10x.v), fed only documents, values, directories and mode
+    import c10full  # noqa: E402  (imports this module's generators: attach it here, not at import time)
+    PROP.also = [c10full.PROP]
     sys.exit(core.main(PROP, sys.argv[1:]))
